@@ -357,6 +357,16 @@ Section RemoveSession.
     - exact Hinv.
   Qed.
 
+  (** no call record is created *)
+  Lemma drs_calls_sub : forall c x,
+      cget (d_calls (fst (fst (dealer_remove_session lk d sid)))) c = Some x -> cget (d_calls d) c = Some x.
+  Proof.
+    intros c x H. rewrite drs_fst in H.
+    destruct drs_d2 as (_ & _ & _ & _ & (E1 & _) & _).
+    destruct drs_phase1 as (_ & S3 & _). destruct drs_phase2 as (_ & S4 & _).
+    rewrite <- E1. apply (sh_calls _ _ S3). apply (sh_calls _ _ S4). exact H.
+  Qed.
+
   (** every message sent is the "callee gone" error of a call the leaver was serving *)
   Theorem remove_session_outputs_proof : forall m,
       In m (snd (fst (dealer_remove_session lk d sid))) ->
